@@ -45,6 +45,15 @@ def codec_rows(repo: Repo, rep, P: str):
             rep.violation(f"{P}.R1", f"src/python/rv/project.py:Project.chunks[{cid}]", cid, f"{cid} is not written / read", "src/python/rv/project.py")
             continue
         wsrc = [parity.last(s) for s in w[0].payload.src]
+        # the packed sequence is the table itself (not a filtered / reordered derivative)
+        for a in w[0].payload.args:
+            inner = a.value if isinstance(a, ast.Starred) else a
+            while isinstance(inner, ast.Call) and norm(inner.func) in ("list", "tuple") and len(inner.args) == 1:
+                inner = inner.args[0]
+            if isinstance(a, ast.Starred) and norm(inner) != f"module.{table}":
+                rep.violation(f"{P}.R1", f"{w[0].rel}:{w[0].fn}[{cid}]", norm(a)[:120],
+                              f"{cid} must carry the complete Module.{table} table, entry for entry (freed −1 entries included): the reader "
+                              "restores positions from it", w[0].where)
         rt = sorted({m.table for m in links.function_muts(r.node) if m.kind in ("extend", "append")})
         if wsrc == [table] and rt == [table]:
             rep.ok(f"{P}.R1", f"{r.rel}:{r.cls}.process_{cid}", f"{cid}: {table}", "same table written and extended")
@@ -52,42 +61,107 @@ def codec_rows(repo: Repo, rep, P: str):
             rep.violation(f"{P}.R1", f"{r.rel}:{r.cls}.process_{cid}", f"{cid}: written from {wsrc}, read into {rt}",
                           f"{cid} must carry Module.{table} on both sides", r.where)
         # element count: reader derives n from len(data) // 4, writer from len(table)
-        s = norm(r.node)
-        if "link_count = len(data) // 4" in s and "'<' + 'i' * link_count" in s:
-            rep.ok(f"{P}.R1", f"{r.rel}:{r.cls}.process_{cid}", "n = len(data) // 4; '<' + 'i' * n")
+        rf = r.fmt
+        if rf is None:
+            env = {}
+            for a in walk_no_nested(r.node):
+                if isinstance(a, ast.Assign) and len(a.targets) == 1 and isinstance(a.targets[0], ast.Name):
+                    env.setdefault(a.targets[0].id, a.value)
+            for c in walk_no_nested(r.node):
+                if isinstance(c, ast.Call) and norm(c.func) in ("unpack", "struct.unpack") and c.args:
+                    rf = codec.parse_fmt(repo, None, c.args[0], env)
+        pcon = f"{r.rel}:{r.cls}.process_{cid}"
+        if rf is None or not rf.variable:
+            rep.inconclusive(f"{P}.R1", pcon, norm(r.node)[:120], "unpack format of the link table not recognised", r.where)
+        elif rf.order != "<" or rf.codes != "i":
+            rep.violation(f"{P}.R1", pcon, rf.text, "links are little-endian signed int32 (−1 marks a freed slot)", r.where)
+        elif rf.count.replace(" ", "") in ("len(data)//4", "len(data)>>2", "int(len(data)/4)"):
+            rep.ok(f"{P}.R1", pcon, f"{rf.show()} with n = {rf.count}")
         else:
-            rep.violation(f"{P}.R1", f"{r.rel}:{r.cls}.process_{cid}", s[:160], "element count must be payload length / 4", r.where)
+            rep.violation(f"{P}.R1", pcon, f"{rf.show()} with n = {rf.count}", "element count must be payload length / 4", r.where)
         wf = w[0].payload.fmt
         if wf is None or not wf.variable or wf.codes != "i" or wf.order != "<":
             rep.violation(f"{P}.R1", f"{w[0].rel}:{w[0].fn}[{cid}]", w[0].payload.text, "links are little-endian signed int32 (−1 marks a freed slot)", w[0].where)
     # SLNK on every path of a non-None module; both lists packed with the same structure
+    from ..guards import canon_text
     sl = [x for x in secs["module"].writer if x.cid == "SLNK"]
-    guards = sorted({tuple(g for g in x.guards if g != "module is not None") for x in sl})
-    if guards == [("len(module.in_links) > 0",), ("not (len(module.in_links) > 0)",)]:
-        rep.ok(f"{P}.R1", "src/python/rv/project.py:Project.chunks[SLNK]", "SLNK in both branches of `if len(links) > 0`", "emitted for every module")
+    guards = sorted({tuple(canon_text(g) for g in x.guards if canon_text(g) != "module is not None") for x in sl})
+    complementary = len(guards) == 2 and len(guards[0]) == len(guards[1]) == 1 and canon_text(f"not ({guards[0][0]})") in (guards[1][0],) \
+        or (len(guards) == 2 and len(guards[0]) == len(guards[1]) == 1 and {guards[0][0][:guards[0][0].index("(")] if "(" in guards[0][0] else "",
+                                                                          guards[1][0][:guards[1][0].index("(")] if "(" in guards[1][0] else ""} == {"empty", "nonempty"}
+            and guards[0][0].split("(", 1)[1] == guards[1][0].split("(", 1)[1])
+    if guards == [()] or complementary:
+        rep.ok(f"{P}.R1", "src/python/rv/project.py:Project.chunks[SLNK]", f"SLNK under {guards}", "emitted for every module")
     else:
         rep.violation(f"{P}.R1", "src/python/rv/project.py:Project.chunks[SLNK]", str(guards),
                       "SLNK must be emitted for every non-empty module slot (an empty list as an empty chunk)", "src/python/rv/project.py")
     slk = [x for x in secs["module"].writer if x.cid == "SLnK"]
     if slk:
-        g = [x for x in slk[0].guards if "any(" in x]
-        if g and g[0].replace(" ", "") == "any((snotin(-1,0)forsinmodule.in_link_slots))":
+        cg = [canon_text(x) for x in slk[0].guards]
+        g = [x for x in cg if x.startswith(("exists_", "all_", "any(", "not (all", "not (any", "all(")) or "in_link_slots" in x]
+        if g and g[0] == "exists_notin(module.in_link_slots;[-1, 0])":
             rep.ok(f"{P}.R1", "src/python/rv/project.py:Project.chunks[SLnK]", g[0], "slot chunk elided only when every slot is 0 or −1")
+        elif not g:
+            rep.ok(f"{P}.R1", "src/python/rv/project.py:Project.chunks[SLnK]", str(cg), "slot chunk always written")
         else:
             rep.violation(f"{P}.R1", "src/python/rv/project.py:Project.chunks[SLnK]", str(slk[0].guards),
                           "SLnK may be omitted only when all slots are 0/−1 (what the rebuild can reproduce)", slk[0].where)
         if "len(module.in_links)" in slk[0].payload.text and "module.in_link_slots" in slk[0].payload.text:
             rep.ok(f"{P}.R1", "src/python/rv/project.py:Project.chunks[SLnK]", slk[0].payload.text, "slots packed with the links' element count")
     # trailing −1 stripping is symmetric in both handlers
-    for cid, var in (("SLNK", "links"), ("SLnK", "slots")):
+    strips = {}
+    for cid in ("SLNK", "SLnK"):
         r = mr.get(cid)
         if r is not None:
-            s = norm(r.node)
-            if f"while {var}[-1:] == [-1]:" in s and f"{var}.pop()" in s:
-                rep.ok(f"{P}.R1", f"{r.rel}:{r.cls}.process_{cid}", f"while {var}[-1:] == [-1]: {var}.pop()", "trailing freed entries dropped from both tables alike")
-            else:
-                rep.violation(f"{P}.R1", f"{r.rel}:{r.cls}.process_{cid}", s[:120],
-                              "trailing −1 entries must be stripped the same way from links and slots (tables stay parallel)", r.where)
+            strips[cid] = strips_trailing(r.node)
+    if len(strips) == 2:
+        if bool(strips["SLNK"]) == bool(strips["SLnK"]):
+            rep.ok(f"{P}.R1", f"{mr['SLNK'].rel}:{mr['SLNK'].cls}.process_SLNK/process_SLnK",
+                   f"trailing −1 stripping: {strips['SLNK'] or 'none'} / {strips['SLnK'] or 'none'}", "trailing freed entries dropped from both tables alike")
+        else:
+            bad = "SLNK" if not strips["SLNK"] else "SLnK"
+            r = mr[bad]
+            rep.violation(f"{P}.R1", f"{r.rel}:{r.cls}.process_{bad}", norm(r.node)[:120],
+                          "trailing −1 entries must be stripped the same way from links and slots (tables stay parallel)", r.where)
+
+
+def strips_trailing(fn: ast.AST, sentinel: int = -1) -> str:
+    """Text of a loop that removes trailing `sentinel` entries of a list (and nothing else), or ''."""
+    for n in ast.walk(fn):
+        if not isinstance(n, ast.While) or n.orelse:
+            continue
+        t = n.test
+        var = None
+        conj = t.values if isinstance(t, ast.BoolOp) and isinstance(t.op, ast.And) else [t]
+        last_is = False
+        nonempty = False
+        for c in conj:
+            if isinstance(c, ast.Compare) and len(c.ops) == 1 and isinstance(c.ops[0], ast.Eq):
+                l, r = c.left, c.comparators[0]
+                # x[-1:] == [-1]
+                if isinstance(l, ast.Subscript) and isinstance(l.slice, ast.Slice) and norm(l.slice.lower or ast.Constant(value=None)) == str(sentinel) \
+                        and l.slice.upper is None and norm(r) == f"[{sentinel}]":
+                    var, last_is, nonempty = norm(l.value), True, True
+                # x[-1] == -1
+                elif isinstance(l, ast.Subscript) and not isinstance(l.slice, ast.Slice) and norm(l.slice) == "-1" and norm(r) == str(sentinel):
+                    var, last_is = norm(l.value), True
+            elif isinstance(c, (ast.Name, ast.Attribute)):
+                nonempty = nonempty or True
+                var = var or norm(c)
+            elif isinstance(c, ast.Compare) and isinstance(c.left, ast.Call) and norm(c.left.func) == "len":
+                nonempty = True
+        if not (var and last_is and nonempty):
+            continue
+        body = [b for b in n.body if not isinstance(b, ast.Pass)]
+        if len(body) != 1:
+            continue
+        b = body[0]
+        removes = (isinstance(b, ast.Expr) and isinstance(b.value, ast.Call) and norm(b.value) == f"{var}.pop()") or \
+                  (isinstance(b, ast.Expr) and isinstance(b.value, ast.Call) and norm(b.value) == f"{var}.pop(-1)") or \
+                  (isinstance(b, ast.Delete) and len(b.targets) == 1 and norm(b.targets[0]) == f"{var}[-1]")
+        if removes:
+            return f"while {norm(t)}: {norm(b)}"
+    return ""
 
 
 def _inner_loops(fn: ast.FunctionDef) -> List[Tuple[ast.For, ast.For]]:
